@@ -115,3 +115,10 @@ Print Assumptions C16_step_prepared_exact.
 Theorem C16_prepare_step_keeps_wf : forall fs cwd outs rsp e fs', fs_wf fs -> node_at fs cwd = Some KDir -> prepare_step fs cwd outs rsp = (e, fs') -> fs_wf fs' /\ node_at fs' cwd = Some KDir.
 Proof. exact prepare_step_wf. Qed.
 Print Assumptions C16_prepare_step_keeps_wf.
+
+(* a failure names its cause (audit W2: the contrapositive above names nothing): on a well-formed tree,
+   for outputs whose directory parts have no "." / ".." left, a failing create_parent_dirs means that a
+   regular file sits at a prefix of the directory of one of the outputs *)
+Theorem C16_output_dirs_failure_names_a_file : forall fs cwd outs e fs', fs_wf fs -> node_at fs cwd = Some KDir -> (forall o d, In o outs -> lp_parent (path_new o) = Some d -> nodots (lp_comps d)) -> create_parent_dirs fs cwd outs = (Some e, fs') -> exists o d i c, In o outs /\ lp_parent (path_new o) = Some d /\ i <= length (lp_comps d) /\ node_at fs (loc_prefix cwd d i) = Some (KFile c).
+Proof. exact create_parent_dirs_failure_names_a_file. Qed.
+Print Assumptions C16_output_dirs_failure_names_a_file.
